@@ -127,6 +127,9 @@ func sliceFor(pc []*Term, f *Term) []*Term {
 // global verdict cache shared by all workers (keyed by the set of conjunct ids)
 var verdictCache sync.Map
 
+// models of satisfiable sliced queries, reusable whenever the same conjunct set is asked again
+var satModelCache sync.Map
+
 func cachedVerdict(conj []*Term) (string, bool) {
 	v, ok := verdictCache.Load(conjKey(conj))
 	if !ok {
@@ -136,38 +139,108 @@ func cachedVerdict(conj []*Term) (string, bool) {
 }
 
 // feasible decides whether s.pc ∧ c is satisfiable, cheaply when it can: remembered model,
-// then a sliced query (merging the answer into the remembered model), else a full query.
+// then a query sliced to the conjuncts connected to c and to whatever the remembered model
+// does not satisfy (merging the answer into the remembered model), else a full query.
 func (w *W) feasible(s *State, c *Term) Result {
 	npc := append(append([]*Term(nil), s.pc...), c)
-	if s.model != nil && s.modelSatisfies(s.pc) {
-		s.modelOK = len(s.pc)
-		memo := map[*Term]*Term{}
-		if r := evalTerm(c, s.model, memo); r != nil {
-			if v, ok := r.BoolVal(); ok && v {
-				atomic.AddInt64(&stats.ModelHits, 1)
-				return Result{Status: "sat", Model: s.model, Backend: "model"}
-			}
-		}
-		sl := append(sliceFor(s.pc, c), c)
-		if st, ok := cachedVerdict(sl); ok && st == "unsat" {
-			atomic.AddInt64(&stats.CacheHits, 1)
-			return Result{Status: "unsat", Backend: "cache"}
-		}
-		r := w.solver.Check(sl, true, QFeas)
-		if r.Status == "unsat" {
-			verdictCache.Store(conjKey(sl), "unsat")
-		}
-		if r.Status == "sat" && r.Model != nil {
-			merged := make(map[string]*big.Int, len(s.model)+len(r.Model))
-			for k, v := range s.model {
-				merged[k] = v
-			}
-			for k, v := range r.Model {
-				merged[k] = v
-			}
-			r.Model = merged
-		}
-		return r
+	if s.model == nil {
+		return w.solver.Check(npc, true, QFeas)
 	}
-	return w.solver.Check(npc, true, QFeas)
+	memo := map[*Term]*Term{}
+	holds := func(t *Term) bool {
+		r := evalTerm(t, s.model, memo)
+		if r == nil {
+			return false
+		}
+		v, ok := r.BoolVal()
+		return ok && v
+	}
+	var bad []*Term
+	for i := s.modelOK; i < len(s.pc); i++ {
+		if !holds(s.pc[i]) {
+			bad = append(bad, s.pc[i])
+		}
+	}
+	if len(bad) == 0 {
+		s.modelOK = len(s.pc)
+		if holds(c) {
+			atomic.AddInt64(&stats.ModelHits, 1)
+			return Result{Status: "sat", Model: s.model, Backend: "model"}
+		}
+	}
+	focus := append(append([]*Term(nil), bad...), c)
+	sl := sliceForMany(s.pc, focus)
+	sl = append(sl, c)
+	key := conjKey(sl)
+	if st, ok := verdictCache.Load(key); ok && st.(string) == "unsat" {
+		atomic.AddInt64(&stats.CacheHits, 1)
+		return Result{Status: "unsat", Backend: "cache"}
+	}
+	var r Result
+	if mv, ok := satModelCache.Load(key); ok {
+		atomic.AddInt64(&stats.CacheHits, 1)
+		r = Result{Status: "sat", Model: mv.(map[string]*big.Int), Backend: "cache"}
+	} else {
+		r = w.solver.Check(sl, true, QFeas)
+		if r.Status == "unsat" {
+			verdictCache.Store(key, "unsat")
+		} else if r.Status == "sat" && r.Model != nil {
+			satModelCache.Store(key, r.Model)
+		}
+	}
+	if r.Status == "sat" && r.Model != nil {
+		merged := make(map[string]*big.Int, len(s.model)+len(r.Model))
+		for k, v := range s.model {
+			merged[k] = v
+		}
+		for k, v := range r.Model {
+			merged[k] = v
+		}
+		r.Model = merged
+	}
+	return r
+}
+
+// sliceForMany: conjuncts of pc connected (through shared symbols) to any of the focus formulas.
+func sliceForMany(pc []*Term, focus []*Term) []*Term {
+	want := map[int]bool{}
+	for _, f := range focus {
+		for _, v := range symbolsOf(f) {
+			want[v] = true
+		}
+	}
+	if len(want) == 0 {
+		return nil
+	}
+	syms := make([][]int, len(pc))
+	for i, c := range pc {
+		syms[i] = symbolsOf(c)
+	}
+	in := make([]bool, len(pc))
+	changed := true
+	for changed {
+		changed = false
+		for i := range pc {
+			if in[i] {
+				continue
+			}
+			for _, v := range syms[i] {
+				if want[v] {
+					in[i] = true
+					changed = true
+					for _, u := range syms[i] {
+						want[u] = true
+					}
+					break
+				}
+			}
+		}
+	}
+	var out []*Term
+	for i, c := range pc {
+		if in[i] {
+			out = append(out, c)
+		}
+	}
+	return out
 }
